@@ -94,6 +94,43 @@ func valueForVar(r *rand.Rand, b *Binding, v TVar) string {
 	return strings.Join(parts, "/")
 }
 
+// nearMissForVar: a value that almost fits the variable's sub-pattern but does not: the trailing "**" left without a
+// segment, one segment too few or too many, or a literal replaced. Returns false for single-segment variables.
+func nearMissForVar(r *rand.Rand, b *Binding, v TVar) (string, bool) {
+	segs := b.Segs[v.Start:]
+	if v.End != -1 {
+		segs = b.Segs[v.Start:v.End]
+	}
+	if len(segs) < 2 {
+		return "", false
+	}
+	parts := strings.Split(valueForVar(r, b, v), "/")
+	switch r.IntN(4) {
+	case 0: // nothing left for the last pattern segment
+		n := len(segs) - 1
+		if n > len(parts) {
+			n = len(parts)
+		}
+		parts = parts[:n]
+	case 1:
+		parts = parts[:len(parts)-1]
+	case 2:
+		for i, s := range segs {
+			if s.Kind == segLit && i < len(parts) {
+				parts[i] = s.Lit + "x"
+				break
+			}
+		}
+	case 3:
+		if segs[len(segs)-1].Kind == segDStar {
+			parts = parts[:len(segs)-1]
+		} else {
+			parts = append(parts, "extra")
+		}
+	}
+	return strings.Join(parts, "/"), true
+}
+
 func setLeaf(m protoreflect.Message, fields []protoreflect.FieldDescriptor, v protoreflect.Value) {
 	cur := m
 	for _, fd := range fields[:len(fields)-1] {
